@@ -255,7 +255,8 @@ def do_op(psi, op, A, key, SI):
         psi.set_B(op['i'], B, f)
     elif t == 'set_svd_theta':
         th = psi.get_theta(op['i'], 2).combine_legs([['vL', 'p0'], ['p1', 'vR']], qconj=[+1, -1])
-        psi.set_svd_theta(op['i'], th, trunc_par={'chi_max': 64, 'svd_min': 1.e-10})
+        psi.set_svd_theta(op['i'], th, trunc_par={'chi_max': 64, 'svd_min': 1.e-10},
+                          update_norm=bool(op.get('update_norm', False)))
     elif t == 'apply_local_op':
         i = op['i']
         kw = {'unitary': op.get('unitary'), 'renormalize': op.get('renormalize', False), 'understood_infinite': True}
